@@ -980,6 +980,7 @@ func (db *DB) reWriteData(pendingMergeEntries []*Entry) error {
 
 	dataFile, err := NewDataFile(db.getDataPath(db.MaxFileID+1), db.opt.SegmentSize, db.opt.RWMode)
 	if err != nil {
+		tx.Rollback() // release the write lock taken by Begin
 		db.isMerging = false
 		return err
 	}
@@ -994,7 +995,13 @@ func (db *DB) reWriteData(pendingMergeEntries []*Entry) error {
 			return err
 		}
 	}
-	tx.Commit()
+	if err := tx.Commit(); err != nil {
+		// a failed Commit keeps the transaction open (and the write lock held): give both up, and tell Merge
+		// that the entries were not rewritten so that it does not remove their segment
+		tx.Rollback()
+		db.isMerging = false
+		return err
+	}
 	return nil
 }
 
